@@ -92,8 +92,8 @@ def __init__(self, env, rate, priorities, flow2class=lambda fid: fid, debug=Fals
     self.proc = env.process(self.run(env))
 ''')
 
-spec('SP', 'run', what='scan from the highest priority; skip empty queues (tested at the time, by packet count); serve '
-                       'one packet (awaited) and restart the scan from the top; block only when the system is empty')('''
+spec('SP', 'run', what='scan from the highest priority; skip empty queues (tested at the time, by packet count); take the head '
+                       'packet in the same step as the choice; serve it (awaited) and restart the scan from the top; block only when the system is empty')('''
 def run(self, env):
     while True:
         for flow_id, prio in self.priorities:
@@ -101,12 +101,21 @@ def run(self, env):
                 store = self.stores[flow_id]
                 if store.size() == 0:
                     continue
-                packet = yield store.get()
+                packet = store.get().value
                 packet.priorities[self.flow2class(packet.flow_id)] = prio
                 yield env.process(self.send_packet(packet))
                 break
         if self.total_packets == 0:
             yield self.packets_available.get()
+''')
+
+spec('SP', 'put', what='queued per class (the priority table is keyed by class); wake-up token iff the system was empty on entry')('''
+def put(self, packet):
+    class_id = self.flow2class(packet.flow_id)
+    if self.total_packets == 0:
+        self.packets_available.put(True)
+    self.add_packet_to_queue(packet)
+    self.stores[class_id].put(packet)
 ''')
 
 # ------------------------------------------------------------------ wfq.py
@@ -141,21 +150,25 @@ def reset_vtime(self):
         self.finish_times[class_id] = 0.0
 ''')
 
-spec('WFQ', 'run', what='pop the smallest stamp, transmit (awaited), advance V over the transmission with the classes '
-                        'that were backlogged during it, then drop the class if its backlog is 0, reset when idle')('''
+spec('WFQ', 'run', what='pop the smallest stamp, serve it (transmission plus departure bookkeeping, awaited)')('''
 def run(self, env):
     while True:
         item = yield self.store.get()
-        packet = item.item
-        yield env.process(self.send_packet(packet))
-        self.update_vtime()
-        class_id = self.flow2class(packet.flow_id)
-        self.class_backlog[class_id] -= 1
-        if self.class_backlog[class_id] == 0:
-            self.active_set.remove(class_id)
-        if len(self.active_set) == 0:
-            self.reset_vtime()
-        self.last_time = env.now
+        yield env.process(self.serve(item.item))
+''')
+
+spec('WFQ', 'serve', what='transmit, then in the same step: advance V over the transmission with the classes backlogged during it, '
+                          'drop the class if its backlog is 0, reset when idle, close the interval')('''
+def serve(self, packet):
+    yield from self.send_packet(packet)
+    self.update_vtime()
+    class_id = self.flow2class(packet.flow_id)
+    self.class_backlog[class_id] -= 1
+    if self.class_backlog[class_id] == 0:
+        self.active_set.remove(class_id)
+    if len(self.active_set) == 0:
+        self.reset_vtime()
+    self.last_time = self.env.now
 ''')
 
 spec('WFQ', 'put', what='idle: reset; else advance V; stamp F = max(F_c, V) + 8*size/(rate*w_c) on every path; count; '
@@ -259,11 +272,7 @@ def run(self, env):
                     assert class_id == self.flow2class(packet.flow_id)
                     if packet.size <= self.deficit[class_id]:
                         self.current_packet = packet
-                        yield env.process(self.send_packet(packet))
-                        self.class_backlog[class_id] -= 1
-                        self.deficit[class_id] -= packet.size
-                        if self.class_backlog[class_id] == 0:
-                            self.deficit[class_id] = 0.0
+                        yield env.process(self.serve(class_id, packet))
                     else:
                         assert not class_id in self.head_of_line
                         self.head_of_line[class_id] = packet
@@ -273,6 +282,16 @@ def run(self, env):
 ''')
 
 # ------------------------------------------------------------------ rr.py / wrr.py
+
+spec('DRR', 'serve', what='transmit, then in the same step: one packet less in the class, credit debited by its size, '
+                          'credit forgotten when the class is empty')('''
+def serve(self, class_id, packet):
+    yield from self.send_packet(packet)
+    self.class_backlog[class_id] -= 1
+    self.deficit[class_id] -= packet.size
+    if self.class_backlog[class_id] == 0:
+        self.deficit[class_id] = 0.0
+''')
 
 spec('RR', '__init__', what='flows visited in the configured list order')('''
 def __init__(self, env, rate, flows, debug=False):
